@@ -37,6 +37,8 @@ use naga::valid::Capabilities as WgslCapabilities;
 #[path = "../../spec/lib/model_structs.rs"] pub mod model_structs;
 #[path = "../../spec/lib/model_consts.rs"] pub mod model_consts;
 #[path = "../../spec/lib/model_entry.rs"] pub mod model_entry;
+#[path = "../../spec/lib/vec_shims.rs"] pub mod vec_shims;
+#[path = "../../spec/lib/model_vertex.rs"] pub mod model_vertex;
 #[path = "../../spec/lib/model_main.rs"] pub mod model_main;
 #[path = "../../spec/lib/print_model.rs"] pub mod print_model;
 #[path = "../../spec/lib/naga_front.rs"] pub mod naga_front;
@@ -53,6 +55,7 @@ use model_reach::*;
 use model_structs::*;
 use model_consts::{consts_wf, consts_items, overrides_supported, overrides_toks};
 use model_entry::{entries_wf, entry_consts_toks, fragment_states_toks};
+use model_vertex::{vertex_args_wf, vertex_states_toks};
 use model_main::*;
 use print_model::*;
 use naga_front::*;
@@ -269,11 +272,13 @@ pub fn entry_point_constants(module: &naga::Module) -> «(r:» TokenStream«)
 { unimplemented!() }
 //@end
 
-//@stub entry.rs::vertex_states
+//@stub entry.rs::vertex_states proved-in=vertex
 «#[verifier::external_body]»
 pub fn vertex_states(module: &naga::Module) -> «(r:» TokenStream«)
-    requires pre_vertex_states(module),
-    ensures ts_view(&r) == spec_vertex_states(module),»
+    requires
+        vertex_args_wf(module), // [C07.states-pre] naga invariants for the arguments of the vertex entry points
+    ensures
+        ts_view(&r) == vertex_states_toks(module), // [C07.buffers] [C14.vertex-states] [C12.vertex-pass-through] per vertex entry a helper with one step-mode parameter and one `Struct::vertex_buffer_layout(step)` per struct parameter, in parameter order, VertexEntry<n> with n = their number, naming the entry through its ENTRY_ constant and passing overrides.constants() iff the module has overrides; vertex_state forwards module, name, buffers, constants unchanged»
 { unimplemented!() }
 //@end
 
